@@ -1006,9 +1006,11 @@ func (c *wsConn) handleWsConn(ctx context.Context) {
 				// handleWS when this function returns). Calls made with this context
 				// have been cancelled with it, and the peer learns it from the close.
 				c.writeLk.Lock()
+				vhook("w.begin", c, "site", "ctxClose")
 				if err := c.conn.Close(); err != nil {
 					log.Debugw("websocket close error", "error", err)
 				}
+				vhook("w.end", c, "site", "ctxClose")
 				c.writeLk.Unlock()
 			}
 			return
